@@ -6,3 +6,4 @@ pub mod types;
 pub mod values;
 pub mod policy;
 pub mod text;
+pub mod txenv;
